@@ -19,7 +19,7 @@ from ..loader import AnalysisError
 from ..pointsto import GRAD, PARAM, STATE_ROOT
 from .c01 import _step_counter
 from .c06 import _norm
-from .c16 import leafless_not_required
+from .c16 import in_place_loading, leafless_not_required
 from .common import CKPT_MOD, DS, ENTRY_POINTS, callgraph_dominated, loop_var_leak, per_group_fresh, short
 
 OM = "optimizer_modules:OptimizerModule"
@@ -87,10 +87,23 @@ def persistence(ctx, rep, rule: str) -> None:
     rep.floor(rule, "assignments on the step path", n, 15)
     # _bias_correction2 side-condition: a function of beta2 and the step argument only
     for cq in ("distributed_shampoo.utils.shampoo_preconditioner_list:AdagradPreconditionerList", "distributed_shampoo.utils.shampoo_preconditioner_list:BaseShampooPreconditionerList"):
-        fi = repo.cls(cq).methods["update_preconditioners"]
+        fi = repo.meth(repo.cls(cq), "update_preconditioners")
         asg = [n for n in A.walk_no_nested(fi.node) if isinstance(n, ast.Assign) and _norm(n.targets[0]) == "self._bias_correction2"]
         ok = len(asg) == 1 and (A.names_in(asg[0].value) - {"torch", "self"}) == {"step"} and "self._beta2" in _norm(asg[0].value)
-        rep.ob(rule, f"cache-side-condition:{short(fi.qual)}._bias_correction2", ok, fi.loc(asg[0]) if asg else fi.loc(), "the bias-correction cache is recomputed from beta2 and the step counter only")
+        # ... on EVERY call: the only conditions it may depend on are the (constructor-fixed) bias-correction flag and beta2 —
+        # under any per-step condition (e.g. only on refresh steps) a freshly restored object would use the initial value
+        dep = []
+        if ok:
+            c2 = CFG(fi.node)
+            for t, lab in c2.branch_conditions(c2.node_of(asg[0])):
+                if t.kind != "test":
+                    dep.append("loop")
+                    continue
+                attrs = {x.attr for x in ast.walk(t.ast.test) if isinstance(x, ast.Attribute)}
+                if (A.names_in(t.ast.test) - {"self"}) or not attrs <= {"_use_bias_correction", "_beta2"}:
+                    dep.append(_norm(t.ast.test))
+        ok = ok and not dep
+        rep.ob(rule, f"cache-side-condition:{short(fi.qual)}._bias_correction2", ok, fi.loc(asg[0]) if asg else fi.loc(), "the bias-correction cache is recomputed from beta2 and the step counter only, on every call" + (f"; it is recomputed only under `{dep[0]}`: on other steps a restored optimizer uses the initial value" if dep else ""))
     # in-place writes on the step path hit state, parameters, gradients, communication buffers or fresh tensors only
     ds_objs = pts.objects_of_class(DS)
     persistent: set = set()
@@ -213,7 +226,7 @@ def load_strictness(ctx, rep, rule: str) -> None:
     repo = ctx.repo
     load = repo.method(DS, "load_distributed_state_dict")
     up = repo.func(f"{CKPT_MOD}:update_param_state_dict_object")
-    om_load = A.worker(repo, repo.cls(OM).methods["load_state_dict"])
+    om_load = A.worker(repo, repo.meth(repo.cls(OM), "load_state_dict"))
     n = 0
     for fi in (load, up, om_load):
         cfg = CFG(fi.node)
@@ -341,5 +354,7 @@ def run(ctx, rep) -> None:
     rep.attempt("per_group_fresh", per_group_fresh, ctx, rep, "C09.2", [f"{DS}.{n}" for n in INSTANTIATORS])
     rep.attempt("load_strictness", load_strictness, ctx, rep, "C09.3")
     rep.attempt("leafless_not_required", leafless_not_required, ctx, rep, "C09.4")
+    rep.rule("C09.6", "nested module state is loaded by key: tensors copied in place, sequence entries looked up by their index, dict entries by their key (a missing entry raises instead of shifting or truncating the rest)")
+    rep.attempt("in_place_loading", in_place_loading, ctx, rep, "C09.6")
     rep.attempt("group_fields", group_fields, ctx, rep, "C09.5")
     rep.assume("bit-for-bit trajectory equality after resume is NOT decided (needs execution); the rules decide that what the continuation depends on is saved and that loading is strict")
